@@ -51,6 +51,7 @@ type CRLEntrySpec struct {
 	InvKind     int
 	Invalidity  time.Time
 	CriticalExt bool // unknown critical entry extension
+	CritFirst   bool // the critical extension is encoded before the other entry extensions
 }
 
 // CRLSpec is the fully resolved description of one CRL.
@@ -68,11 +69,16 @@ type CRLSpec struct {
 	UnknownCrit bool
 	UnknownNon  bool
 	Freshest    []byte // raw extension value (nil = absent)
+	FreshURIs   int    // URI locations that extension advertises (by construction)
 	Entries     []CRLEntrySpec
 	// filled by EncodeCRL
 	DER  []byte
 	Hash string
 }
+
+// AdvertisedURIs is set by the builder: number of freshest-CRL URI locations
+// the list advertises (by construction of its extension).
+func (s *CRLSpec) advertises() bool { return s.FreshURIs > 0 }
 
 func (s *CRLSpec) Authentic(issuerHasCRLSign bool) bool {
 	return s.SignerKind == "issuer" && issuerHasCRLSign
@@ -92,6 +98,9 @@ func EncodeCRL(s *CRLSpec) []byte {
 	}
 	for _, e := range s.Entries {
 		ent := crlEntryASN1{SerialNumber: e.Serial, RevocationTime: e.RevTime.UTC().Truncate(time.Second)}
+		if e.CriticalExt && e.CritFirst {
+			ent.Extensions = append(ent.Extensions, pkix.Extension{Id: oidUnknownExt, Critical: true, Value: []byte{0x05, 0x00}})
+		}
 		if e.Reason >= 0 {
 			ent.Extensions = append(ent.Extensions, pkix.Extension{Id: oidReasonCode, Value: mustMarshal(asn1.Enumerated(e.Reason))})
 		}
@@ -101,7 +110,7 @@ func EncodeCRL(s *CRLSpec) []byte {
 		case InvMalformed:
 			ent.Extensions = append(ent.Extensions, invalidityDateExt(e.Invalidity, true, false))
 		}
-		if e.CriticalExt {
+		if e.CriticalExt && !e.CritFirst {
 			ent.Extensions = append(ent.Extensions, pkix.Extension{Id: oidUnknownExt, Critical: true, Value: []byte{0x05, 0x00}})
 		}
 		tbs.Revoked = append(tbs.Revoked, ent)
@@ -152,16 +161,22 @@ func hashHex(b []byte) string {
 
 // Freshest-CRL extension shapes (list-level, in the base CRL).
 const (
-	FrAbsent        = iota
-	FrURIs          // 1..3 URI locations in one distribution point
-	FrEmptySeq      // SEQUENCE {} (zero distribution points)
-	FrNonURI        // only a dNSName general name
-	FrRelativeName  // nameRelativeToCRLIssuer
-	FrNoDPName      // distribution point without distributionPoint field
-	FrMalformed     // not DER
-	FrTwoDPs        // two distribution points each with one URI
-	FrURIThenNonURI // URI followed by non-URI name
-	FrNonURIThenURI // non-URI name first: the reference parser stops at it
+	FrAbsent             = iota
+	FrURIs               // 1..3 URI locations in one distribution point
+	FrEmptySeq           // SEQUENCE {} (zero distribution points)
+	FrNonURI             // only a dNSName general name
+	FrRelativeName       // nameRelativeToCRLIssuer
+	FrNoDPName           // distribution point without distributionPoint field
+	FrMalformed          // not DER
+	FrTwoDPs             // two distribution points each with one URI
+	FrURIThenNonURI      // URI followed by non-URI name
+	FrNonURIThenURI      // non-URI name first: the reference parser stops at it
+	FrNamelessThenURIs   // a distribution point without name, then one with the URIs
+	FrIssuerOnlyThenURIs // a distribution point with reasons+cRLIssuer only, then one with the URIs
+	FrBadNameTLV         // a non-URI general name whose length runs past the end (82 05 61)
+	FrBadURITLV          // a URI general name whose length runs past the end
+	FrGarbageAfterURI    // a URI followed by bytes that are no TLV at all
+	nFrShapes
 )
 
 // freshestValue builds the raw extension value for a shape. It returns the
@@ -220,6 +235,25 @@ func freshestValue(shape int, urls []string) (val []byte, extracted []string, pa
 		return seq(dpWithNames(cat(uri(urls[0]), dns))), []string{urls[0]}, true
 	case FrNonURIThenURI:
 		return seq(dpWithNames(cat(dns, uri(urls[0])))), nil, true
+	case FrBadNameTLV:
+		return seq(dpWithNames([]byte{0x82, 0x05, 0x61})), nil, false
+	case FrBadURITLV:
+		return seq(dpWithNames([]byte{0x86, 0x05, 'h'})), nil, false
+	case FrGarbageAfterURI:
+		return seq(dpWithNames(cat(uri(urls[0]), []byte{0xff}))), nil, false
+	case FrNamelessThenURIs, FrIssuerOnlyThenURIs:
+		var names []byte
+		for _, u := range urls {
+			names = append(names, uri(u)...)
+		}
+		first := seq(nil)
+		if shape == FrIssuerOnlyThenURIs {
+			reasons := wrap(asn1.ClassContextSpecific, 1, false, []byte{0x06, 0x40}) // ReasonFlags BIT STRING
+			dirName := wrap(asn1.ClassContextSpecific, 2, false, []byte("ca.sim"))   // dNSName
+			crlIssuer := wrap(asn1.ClassContextSpecific, 2, true, dirName)
+			first = seq(cat(reasons, crlIssuer))
+		}
+		return seq(cat(first, dpWithNames(names))), append([]string(nil), urls...), true
 	}
 	return nil, nil, true
 }
